@@ -238,7 +238,7 @@ func (h *bytesHolder) Read(p []byte) (int, error) { return 0, io.EOF }
 func (h *bytesHolder) Bytes() []byte              { return h.b }
 
 var c19Backends = []string{"bytes", "reader-Bytes()", "seeker-n", "seeker-n<0", "seeker-chunk1", "seeker-eof-with-data", "readerat", "readerat-eof-on-exact-fit",
-	"reader-n<0", "reader-n", "reader-n-chunk1", "reader-n-eof-with-data", "file", "mmap-path", "mmap-file"}
+	"reader-n<0", "reader-n", "reader-n-chunk1", "reader-n-eof-with-data", "file", "mmap-path", "mmap-file", "reader-n<0-eof-with-data", "reader-n<0-chunk1-eof-with-data"}
 
 const c19FirstFile = 12
 
@@ -285,6 +285,10 @@ func c19Open(backend int, data []byte) (*parse.BinaryReader, func(), bool) {
 	case 11:
 		r, err = parse.NewBinaryReaderReader(&envReader{data: d, eofWith: true}, n)
 		random = false
+	case 15:
+		r, err = parse.NewBinaryReaderReader(&envReader{data: d, eofWith: true}, -1)
+	case 16:
+		r, err = parse.NewBinaryReaderReader(&envReader{data: d, chunk: 1, eofWith: true}, -1)
 	case 12, 13, 14:
 		if c19TmpDir == "" {
 			c19TmpDir, _ = os.MkdirTemp("", "verifmc-c19-")
@@ -808,7 +812,7 @@ func c19Finish(c *engine.Ctx, cov map[string]interface{}) string {
 func init() {
 	register(&engine.Check{
 		ID: "C19", Level: "model_checking",
-		Rule:        "all write histories of ≤3 (thorough 4) typed writes (27 op/value pairs: every width, signed and unsigned boundary values, byte strings of 0,1,3 bytes) plus all histories of 4 (thorough 5) writes over a 12-op core × {big, little} endian: writer bytes vs encoding/binary (also from an empty writer of four capacities with the byte strings passed as pieces of one source buffer, which must stay as it is), then read back on 15 backends/environment behaviours (memory, Bytes() reader, ReadSeeker n/-1/1-byte chunks/EOF-with-data, ReaderAt with nil or EOF on exact fit, plain reader -1/n/chunked/EOF-with-data, *os.File, mmap path, mmap file) with the data truncated at every byte; Seek from every position × every offset in [-L-1,L+1] × whence 0..3 and Read/ReadAt for every (pos,len) on L≤6 bytes vs bytes.Reader and the io contracts (on the sequential-only backends: ReadAt at every (pos, off, len) either refuses or returns the right bytes and leaves the following reads intact); every bit string ≤17 bits through BitmapWriter→BitmapReader (destination nil, an empty slice whose spare capacity holds old data, or a buffer that is filled with other bits) and every buffer ≤2 bytes through BitmapReader",
+		Rule:        "all write histories of ≤3 (thorough 4) typed writes (27 op/value pairs: every width, signed and unsigned boundary values, byte strings of 0,1,3 bytes) plus all histories of 4 (thorough 5) writes over a 12-op core × {big, little} endian: writer bytes vs encoding/binary (also from an empty writer of four capacities with the byte strings passed as pieces of one source buffer, which must stay as it is), then read back on 17 backends/environment behaviours (memory, Bytes() reader, ReadSeeker n/-1/1-byte chunks/EOF-with-data, ReaderAt with nil or EOF on exact fit, plain reader -1/n/chunked/EOF-with-data (also with unknown length), *os.File, mmap path, mmap file) with the data truncated at every byte; Seek from every position × every offset in [-L-1,L+1] × whence 0..3 and Read/ReadAt for every (pos,len) on L≤6 bytes vs bytes.Reader and the io contracts (on the sequential-only backends: ReadAt at every (pos, off, len) either refuses or returns the right bytes and leaves the following reads intact); every bit string ≤17 bits through BitmapWriter→BitmapReader (destination nil, an empty slice whose spare capacity holds old data, or a buffer that is filled with other bits) and every buffer ≤2 bytes through BitmapReader",
 		Assumptions: []string{"a reader may legally deliver io.EOF together with the last bytes, and a ReaderAt may return io.EOF or nil when a read ends exactly at the end", "Seek targets outside [0,Len] may be rejected (position unchanged) or accepted"},
 		Setup:       c19Setup, Work: c19Work, Finish: c19Finish,
 	})
